@@ -101,7 +101,7 @@ def run(res, tier, seed):
     rng = random.Random(seed)
     wd = vlib.workdir("c11-%d" % os.getpid())
     c02.mc_laws(res, tier, wd)
-    docs = c02.make_docs(rng, 2 if tier == "quick" else 12)
+    docs = c02.make_docs(rng, 2 if tier == "quick" else 6)
     flats = [xdm.flatten(t, c02.ID_ATTRS) for t in docs]
     table = head_table()
     src_ops = opcodes_in_source()
@@ -115,12 +115,12 @@ def run(res, tier, seed):
     exprs = [e for es in table.values() for e in es]
     if tier != "quick":
         g = xpgen.Gen(rng, vars_={"n": "num", "s": "str", "b": "bool", "e": "ns"})
-        exprs += [g.any(rng.choice([1, 2, 3])) for _ in range(6000)]
+        exprs += [g.any(rng.choice([1, 2, 3])) for _ in range(2500)]
     ndocs = 2 if tier == "quick" else len(docs)
     for e in exprs:
         for d in range(ndocs):
             n = flats[d]["n"]
-            for ctx in rng.sample(range(1, n + 1), min(n, 3 if tier == "quick" else 4)):
+            for ctx in rng.sample(range(1, n + 1), min(n, 3)):
                 v = dict(vs)
                 v["e"] = {"t": "ns", "v": [[d + 1, i, 0] for i in sorted(rng.sample(range(1, n + 1), min(n, 2)))]}
                 v["z"] = {"t": "ns", "v": []}
